@@ -34,6 +34,10 @@ pub(crate) struct SubSocketBackend {
     socket_options: SocketOptions,
     pub(crate) socket_monitor: Mutex<Option<mpsc::Sender<SocketEvent>>>,
     subs: Mutex<HashSet<String>>,
+    /// Held while a joining peer is told the subscriptions and registered, and while a change of
+    /// the subscriptions is applied and sent to the registered peers: a change made between a
+    /// joiner's snapshot and its registration would otherwise never reach that peer.
+    subs_order: futures::lock::Mutex<()>,
 }
 
 impl SubSocketBackend {
@@ -64,6 +68,7 @@ impl SubSocketBackend {
             socket_options: options,
             socket_monitor: Mutex::new(None),
             subs: Mutex::new(HashSet::new()),
+            subs_order: futures::lock::Mutex::new(()),
         }
     }
 
@@ -102,6 +107,7 @@ impl MultiPeerBackend for SubSocketBackend {
     async fn peer_connected(self: Arc<Self>, peer_id: &PeerIdentity, io: FramedIo) {
         let (recv_queue, mut send_queue) = io.into_parts();
 
+        let _in_order = self.subs_order.lock().await;
         let subs_msgs: Vec<ZmqMessage> = self
             .subs
             .lock()
@@ -160,6 +166,8 @@ impl SubSocket {
     pub async fn subscribe(&mut self, subscription: &str) -> ZmqResult<()> {
         // Publishers count subscriptions per topic, while `subs` (what a late joiner is told) is a
         // set: only a change of the set is sent, so that all peers agree.
+        let backend = self.backend.clone();
+        let _in_order = backend.subs_order.lock().await;
         if !self.backend.subs.lock().insert(subscription.to_string()) {
             return Ok(());
         }
@@ -168,6 +176,8 @@ impl SubSocket {
     }
 
     pub async fn unsubscribe(&mut self, subscription: &str) -> ZmqResult<()> {
+        let backend = self.backend.clone();
+        let _in_order = backend.subs_order.lock().await;
         if !self.backend.subs.lock().remove(subscription) {
             return Ok(());
         }
